@@ -29,7 +29,7 @@ func init() {
 		Explain: "Decides the structural necessary conditions of sequence/epoch discipline on every path: a sequence number is taken only for a fresh (retries==0), non-marker message under Idempotent, by exactly one caller, and hasSequence is then set (C05.seq-once); the epoch is bumped only when a sequenced message fails (C05.epoch); a batch's FirstSequence/ProducerID/Epoch come from the first message and the producer's identity, a resent batch is the very same partition set (C05.batch); " +
 			"duplicate-sequence answers are reported as success and every response code class has the tabled action (C05.dup-is-success); the buffer is rolled over before a message of another epoch is added (C05.rollover); Validate rejects each configuration that breaks idempotence (C05.config); the retry-budget exhaustion of a batch fails the whole batch (C01.partial, shared). " +
 			"NOT covered: the broker's dedup rules, lost acknowledgements, an epoch bump while other partitions have sequenced messages in flight.",
-		Rules: []func(*Ctx){c05SeqOnce, c05Epoch, c05Batch, c05DupIsSuccess, c05Rollover, c05Config, c05Lock, c01Partial, c01ErrLost, c02Recheck, c05FreshProducerID, c05ClearResetsAll, c02MarkerCreators, c05ResendWholeBatch, c05LoopVarCapture},
+		Rules: []func(*Ctx){c05SeqOnce, c05Epoch, c05Batch, c05DupIsSuccess, c05Rollover, c05Config, c05Lock, c01Partial, c01ErrLost, c02Recheck, c05FreshProducerID, c05ClearResetsAll, c02MarkerCreators, c05ResendWholeBatch, c05LoopVarCapture, c05StampAtomic},
 	})
 }
 
